@@ -33,7 +33,7 @@ def record(chk, yv, tag, nfiles, programs, steps, exclude=(), only=None, force_d
     return files
 
 
-def validate(chk, files, mode, site, nproc=12):
+def validate(chk, files, mode, site, nproc=12, classify=None):
     cfg = cfg_for(mode)
 
     def val(job):
@@ -55,6 +55,8 @@ def validate(chk, files, mode, site, nproc=12):
             p = evs[start]
             ev = evs[k]
             cls = "panic" if "panic" in ev else ("init" if ev["ev"] == "ind_new" else site)
+            if classify and cls == site:
+                cls = cls + classify(p["name"], evs, start, k)      # refinement of the key by the circumstances of the rejection
             chk.finding("%s:%s" % (p["name"], cls), {"stage": "B:trace(%s)" % mode, "trace": job[0], "config": p["raw_cfg"],
                                                      "step_in_program": k - start, "rejected_event": {kk: ev[kk] for kk in ev if kk not in ("o",)}})
     chk.cov["traces_validated_against_impl"] += len(files)
